@@ -87,7 +87,7 @@ def exotic_valuations():
     return out
 
 
-GLOBALS_SRC = "G = 7\nGW = 7\nGL = [4, 0]\nx = 100\nxs = [9, 9]\nC = 50\nCL = [7, 7, 7]\nclass _Imp:\n    def __repr__(self):\n        return 'IMPOSSIBLE'\nIMPOSSIBLE = _Imp()\ndef ident(v):\n    return v\ndef add(a, b=0, *rest, k=0):\n    return a + b + sum(rest) + k\n"
+GLOBALS_SRC = "G = 7\nGW = 7\nGL = [4, 0]\nx = 100\nxs = [9, 9]\nC = 50\nCL = [7, 7, 7]\nclass _Imp:\n    def __repr__(self):\n        return 'IMPOSSIBLE'\nIMPOSSIBLE = _Imp()\ndef ident(v):\n    return v\ndef add(a, b=0, *rest, k=0):\n    return a + b + sum(rest) + k\ndef first(a=-1, *rest):\n    return a\n"
 CLOSURE = {"C": 5, "CL": [1]}
 # parameters of the decorated FUNCTION (with these defaults) that no condition takes as a parameter although the conditions use
 # the names: inside a condition G and GL are the module globals (7, [4, 0]), whatever the function was called with
@@ -129,6 +129,7 @@ PRODS = {
         ("(t := {0}) + t", ["int"]), ("len({0})", ["str"]), ("int({0})", ["bool"]), ("{0} / 2", ["int"]), ("abs({0} or {1})", ["int", "int"]),
         ("abs({0} and {1})", ["int", "int"]), ("len({0}[{1}:])", ["list", "int"]), ("len(str({0}))", ["int"]),
         ("+{0}", ["bool"]), ("-{0}", ["bool"]),   # unary operators change the type of a bool operand
+        ("first(*{0}, {1})", ["list", "int"]), ("first({1}, *{0})", ["list", "int"]), ("first(*{0}, *{1})", ["list", "list"]),   # order of unpacked and plain arguments
     ],
     "bool": [
         ("{0} < {1}", ["int", "int"]), ("{0} <= {1}", ["int", "int"]), ("{0} > {1}", ["int", "int"]), ("{0} >= {1}", ["int", "int"]),
